@@ -18,10 +18,12 @@ MANIFEST = dict(
          'differences and comparisons of absolute differences, applied to turning-point extraction and the item-level stack machine); the FKM '
          'detector is negation- and positive-scale-equivariant (unbounded); inserting non-reversal samples changes no reported value of the '
          'four-point and FKM detectors and no reversal value (unbounded); three-point detector: negation / six affine maps / insertion proved '
-         'bounded ({0..3}, length <= 7 resp. 6, vm_compute).  Index tracking under refinement, NaN dropping and Series handling are decided by '
+         'bounded ({0..3}, length <= 7 resp. 6, vm_compute); NaN dropping: a literal model of clean_nans + the index-correction loop reports the '
+         'values of the NaN-free signal and indices that address, in the original signal, non-NaN samples holding the value (nan_drop_index, '
+         'unbounded).  Index tracking under refinement, NaN handling inside the detectors and Series handling are decided by '
          'relations on the implementation on every run.',
     note=common.TB_NOTE + 'no axioms under any C03 theorem. Hand-written model tied by correspondence; integer-valued signals in the model; '
-         'NaN handling (clean_nans / correct_turns_by_nans) and pandas Series glue are not modelled in Coq (implementation relations only).',
+         'NaN handling is modelled for find_turns (tied by its own correspondence run), not for the detectors\' tail bookkeeping; pandas Series glue is not modelled (implementation relations only).',
     technique='Coq proof (equivariance by induction over scanner and stack machine; bounded vm_compute for 3pt) + implementation relations',
     design='6/C03')
 
@@ -139,7 +141,7 @@ def run(res):
     res.cov['rule'] = ('random integer signals (alphabets 3..19 values or wide, plateaus, monotone runs, repeated extremes), length 1..120; per signal: negation, '
                        'affine map a in {1,2,3,7} b in [-50,50], FKM scale, random refinement by non-reversal samples, NaN placement away from the ends (also chunked), '
                        '4 Series index types; non-trivial = signal with >= 3 reversals and >= 1 closed cycle (distinct signals counted)')
-    common.standard_proof_stage(res, 'C03')
+    common.standard_proof_stage(res, 'C03', extra_targets=['theories/Rainflow/NaN.vo'])
 
     # ---- tie: one-piece correspondence of the model
     n_corr = 400 if quick else 4000
@@ -154,6 +156,26 @@ def run(res):
     res.oblige('correspondence model = implementation on %d one-piece runs' % len(terms), not bad,
                'disagreeing: %s\n%s' % ([meta[i] for i in bad[:5]], log[-1200:]))
     res.add_cases(len(terms), 0)
+
+    # ---- tie of the NaN model: general.find_turns on signals with NaN samples vs find_turns_nan
+    from pylife.stress.rainflow.general import find_turns
+    nterms, nmeta = [], []
+    for _ in range(300 if quick else 3000):
+        s = rf.random_signal(rng, 40)
+        o = [None if rng.random() < 0.15 else x for x in s]
+        if all(x is None for x in o):
+            continue
+        with warnings.catch_warnings():
+            warnings.simplefilter('ignore')
+            idx, vals = find_turns(np.array([float('nan') if x is None else float(x) for x in o]))
+        lit = '[' + '; '.join('None' if x is None else 'Some %s' % common.zlit(x) for x in o) + ']'
+        exp = '[' + '; '.join('(%s, %s)' % (common.nlit(i), common.zlit(int(v))) for i, v in zip(idx, vals)) + ']'
+        nterms.append('leqb (fun a b => Nat.eqb (fst a) (fst b) && Z.eqb (snd a) (snd b)) (find_turns_nan %s) %s' % (lit, exp))
+        nmeta.append(o)
+    nbad, nlog = common.coq_compare('C03nan', rf.REQ + ['From PL Require Import Rainflow.NaN.'], nterms)
+    res.oblige('correspondence find_turns_nan model = general.find_turns on %d signals with NaNs' % len(nterms), not nbad,
+               'disagreeing: %s\n%s' % ([nmeta[i] for i in nbad[:3]], nlog[-1200:]))
+    res.add_cases(len(nterms), 0)
 
     # ---- the relations on the implementation
     n_rel = 2000 if quick else 15000
